@@ -1,4 +1,5 @@
 import PhysisModel.Driver.C06Case
+import PhysisModel.Spec.MdlPlaced
 namespace Physis.Driver.C06
 open Physis Physis.Proto Physis.Mdl Physis.Spec.Mdl Physis.Driver.C06Case
 
@@ -12,6 +13,66 @@ def specText (m : AbstractModel) : String :=
   match view m with
   | some v => viewText v
   | none => "outside"
+
+/-! ### `placed`: the same abstract model stored with another placement of its vertex streams
+
+```
+placed lay=<L0>|<L1>|<L2> <model tokens as for `parse`>
+<Li> = <vpre hex|->;<ipre hex|->;<item,item,…|->
+item = s<d>.<j>          stream j of mesh d (of this LOD) is stored next
+     | g<hex>            these bytes are stored next (gap / padding)
+     | a<d>.<j>.<e>.<k>  stream j of mesh d shares the bytes of the already stored stream k of mesh e
+```
+`vpre` / `ipre`: bytes in front of the LOD's vertex section / between it and the index section.
+The recipe only *builds* a `Spec.Mdl.Placement`; whether it holds every stream is decided by
+`Spec.Mdl.PlacedOk`. -/
+
+structure LayState where
+  sec : Bytes := []
+  placed : List ((Nat × Nat) × Nat) := []   -- ((mesh, stream), offset)
+
+def dj (s : String) : Option (List Nat) := (s.splitOn ".").mapM (·.toNat?)
+
+def layItem (l : ALod) (st : LayState) (item : String) : Option LayState :=
+  match item.toList with
+  | 's' :: rest => do
+    match ← dj (String.ofList rest) with
+    | [d, j] =>
+      let mesh ← l.meshes[d]?
+      let s ← mesh.streams[j]?
+      some { sec := st.sec ++ s.data, placed := ((d, j), st.sec.length) :: st.placed }
+    | _ => none
+  | 'g' :: rest => do
+    let b ← Bytes.ofHexFast (String.ofList rest)
+    some { st with sec := st.sec ++ b }
+  | 'a' :: rest => do
+    match ← dj (String.ofList rest) with
+    | [d, j, e, k] =>
+      let off ← st.placed.lookup (e, k)
+      some { st with placed := ((d, j), off) :: st.placed }
+    | _ => none
+  | _ => none
+
+/-- vertex section, gaps and per-mesh stream offsets of one LOD -/
+def layLod (l : ALod) (s : String) : Option (Bytes × Bytes × Bytes × List (List Nat)) :=
+  match s.splitOn ";" with
+  | [vpre, ipre, items] => do
+    let vpre ← Bytes.ofHexFast vpre
+    let ipre ← Bytes.ofHexFast ipre
+    let st ← (listOf "," items).foldlM (layItem l) {}
+    let offs ← (List.zip (List.range l.meshes.length) l.meshes).mapM fun (d, mesh) =>
+      (List.range mesh.streams.length).mapM fun j => st.placed.lookup (d, j)
+    some (st.sec, vpre, ipre, offs)
+  | _ => none
+
+def parseLay (m : AbstractModel) (tok : String) : Option Placement := do
+  let (k, v) ← kv tok
+  if k != "lay" then none
+  let parts := v.splitOn "|"
+  if parts.length != m.lods.length then none
+  let ls ← (List.zip m.lods parts).mapM fun (l, s) => layLod l s
+  some { vsecs := ls.map (·.1), vpre := ls.map (·.2.1), ipre := ls.map (·.2.2.1),
+         offs := ls.flatMap (·.2.2.2) }
 
 /-- one case line in, one answer line out (see `Base/Proto.lean`) -/
 def handle (line : String) : String :=
@@ -29,6 +90,25 @@ def handle (line : String) : String :=
       else
         -- outside the property's quantifier: correspondence of the model only
         answer input modelAns ["triv", if WF m then "outside:refs" else "outside:wf"]
+  | "placed" :: lay :: toks =>
+    match parseModel toks with
+    | none => bad
+    | some m =>
+      match parseLay m lay with
+      | none => bad
+      | some p =>
+        let file := encodeMdlP m p
+        let modelAns := resultText (fromExisting file)
+        let input := "parse " ++ Bytes.toHex file
+        if WFP m p && (view m).isSome then
+          -- inside the quantifier of `c06_placed_parse_encode_partial`: expected = the unchanged view
+          answer input (specText m)
+            (["layout:placed"] ++ (if hasWeightsByte4 m then ["kf:c06.blendweights-byte4"] else []))
+            (some modelAns)
+        else
+          answer input modelAns
+            ["triv", if !WF m then "outside:wf" else if !PlacedOk m p then "outside:placement"
+                     else "outside:refs"]
   | ["raw", h] =>
     match Bytes.ofHexFast h with
     | some bs => answer "=" (resultText (fromExisting bs)) ["corr"]
